@@ -373,13 +373,37 @@ func (s *pKeyStore) path(parts ...string) string {
 	return filepath.Join(append([]string{s.base, s.id}, parts...)...)
 }
 func (s *pKeyStore) SaveGroup(g *key.Group) error {
-	return s.n.persist("key.SaveGroup", s.path(key.GroupFolderName, "drand_group.toml"), func() error { return s.Store.SaveGroup(g) })
+	return s.n.persist("key.SaveGroup", s.path(key.GroupFolderName, "drand_group.toml"), func() error {
+		err := s.Store.SaveGroup(g)
+		if err == nil {
+			s.n.mu.Lock()
+			s.n.lastGroup[s.id] = g
+			s.n.mu.Unlock()
+			s.n.e.rtGroupFile(s.n, s.base, s.id, g)
+		}
+		return err
+	})
 }
 func (s *pKeyStore) SaveShare(sh *key.Share) error {
-	return s.n.persist("key.SaveShare", s.path(key.GroupFolderName, "dist_key.private"), func() error { return s.Store.SaveShare(sh) })
+	return s.n.persist("key.SaveShare", s.path(key.GroupFolderName, "dist_key.private"), func() error {
+		err := s.Store.SaveShare(sh)
+		if err == nil {
+			s.n.mu.Lock()
+			s.n.lastShare[s.id] = sh
+			s.n.mu.Unlock()
+			s.n.e.rtShareFile(s.n, s.base, s.id, sh)
+		}
+		return err
+	})
 }
 func (s *pKeyStore) Reset() error {
-	return s.n.persist("key.Reset", "", func() error { return s.Store.Reset() })
+	return s.n.persist("key.Reset", "", func() error {
+		s.n.mu.Lock()
+		delete(s.n.lastGroup, s.id)
+		delete(s.n.lastShare, s.id)
+		s.n.mu.Unlock()
+		return s.Store.Reset()
+	})
 }
 
 type pDKGStore struct {
@@ -389,11 +413,23 @@ type pDKGStore struct {
 
 func (s *pDKGStore) SaveCurrent(id string, st *dkg.DBState) error {
 	s.n.e.onDKGSave(s.n, false, st)
-	return s.n.persist("dkg.SaveCurrent", "", func() error { return s.Store.SaveCurrent(id, st) })
+	return s.n.persist("dkg.SaveCurrent", "", func() error {
+		err := s.Store.SaveCurrent(id, st)
+		if err == nil {
+			s.n.e.rtDKG(s.n, s.Store, false, id, st)
+		}
+		return err
+	})
 }
 func (s *pDKGStore) SaveFinished(id string, st *dkg.DBState) error {
 	s.n.e.onDKGSave(s.n, true, st)
-	return s.n.persist("dkg.SaveFinished", "", func() error { return s.Store.SaveFinished(id, st) })
+	return s.n.persist("dkg.SaveFinished", "", func() error {
+		err := s.Store.SaveFinished(id, st)
+		if err == nil {
+			s.n.e.rtDKG(s.n, s.Store, true, id, st)
+		}
+		return err
+	})
 }
 
 type pChainStore struct {
@@ -404,6 +440,9 @@ type pChainStore struct {
 func (s *pChainStore) Put(ctx context.Context, b *common.Beacon) error {
 	err := s.n.persist("chain.Put", "", func() error { return s.Store.Put(ctx, b) })
 	s.n.e.onChainPut(s.n, b, err)
+	if err == nil {
+		s.n.e.rtBeacon(s.n, b)
+	}
 	return err
 }
 func (s *pChainStore) Del(ctx context.Context, r uint64) error {
